@@ -284,6 +284,7 @@ pub fn run_ops(ctx: &mut Ctx) {
 // ------------------------------------------------------------------------------------------------
 pub fn run_keyed(ctx: &mut Ctx) {
     let nshards = if ctx.quick() { 24 } else { 250 };
+    let rt = tokio::runtime::Builder::new_current_thread().build().unwrap();
     let tmp_root = PathBuf::from(std::env::var("TMPDIR").unwrap_or("/verif/run/tmp".into())).join(format!("keyed-{}-{}", std::process::id(), ctx.seed));
     std::fs::create_dir_all(&tmp_root).unwrap();
     for sno in 0..nshards {
@@ -363,6 +364,35 @@ pub fn run_keyed(ctx: &mut Ctx) {
             let dir = tmp_root.join(format!("exp-{sno}-{i}")); std::fs::create_dir_all(&dir).unwrap();
             let name = format!("{}.mdb", compute_data_hash(&b).hex()); std::fs::write(dir.join(&name), &b).unwrap();
             let loaded = MDBShardFile::load_all_valid(&dir).map(|v| v.len()).unwrap_or(99);
+            // the same through a live shard manager that is handed the shard by FILE path and by DIRECTORY path (how downloaded
+            // global-dedup shards and cache directories reach it): past its expiry the shard must not answer
+            if (exp as i128 - now as i128).abs() > 30 {
+                let probe = ca.values().find(|c| !c.chunks.is_empty()).map(|c| c.chunks[0].chunk_hash);
+                let fprobe = fa.keys().next().copied();
+                for by_file in [true, false] {
+                    let mdir = tmp_root.join(format!("expm-{sno}-{i}-{}", by_file as u8)); std::fs::create_dir_all(&mdir).unwrap();
+                    let shard_path = mdir.join(&name);
+                    let res = rt.block_on(async {
+                        let m = mdb_shard::ShardFileManager::new_in_session_directory(&mdir).await?;
+                        std::fs::write(&shard_path, &b)?;
+                        if by_file { m.register_shards_by_path(&[&shard_path]).await?; } else { m.register_shards_by_path(&[&mdir]).await?; }
+                        let a = match probe { Some(h) => m.chunk_hash_dedup_query(&[h]).await?.is_some(), None => false };
+                        let f = match fprobe { Some(h) => mdb_shard::shard_file_reconstructor::FileReconstructor::get_file_reconstruction_info(&*m, &h).await?.is_some(), None => false };
+                        Ok::<_, mdb_shard::error::MDBShardError>((a, f))
+                    });
+                    match res {
+                        Ok((a, f)) => {
+                            let expired = exp < now;
+                            if expired && (a || f) { ctx.fail("C18", "expired-shard-answers-through-manager", format!("a shard whose expiry {exp} lies {} s in the past was handed to a live ShardFileManager by {} path and answers {} queries", now - exp, if by_file { "file" } else { "directory" }, if a && f { "chunk and file" } else if a { "chunk" } else { "file" }), replay.clone()); }
+                            if !expired && probe.is_some() && !a { ctx.stat("valid_shard_chunk_probe_unanswered_(prefix_collisions)"); }
+                            if !expired && ((fprobe.is_some() && !f) || (fprobe.is_none() && probe.is_some() && !a && d == 0)) { ctx.fail("C18", "valid-shard-silent-through-manager", format!("a shard valid for another {} s registered in a ShardFileManager by {} path does not answer (chunk query answered: {a}, file query answered: {f})", exp - now, if by_file { "file" } else { "directory" }), replay.clone()); }
+                            ctx.stat(if expired { "manager_registrations_of_expired_shards" } else { "manager_registrations_of_valid_shards" });
+                        }
+                        Err(e) => ctx.fail("C18", "manager-registration-error", format!("registering a shard (expiry {exp}, now {now}) by {} path failed: {e}", if by_file { "file" } else { "directory" }), replay.clone()),
+                    }
+                    let _ = std::fs::remove_dir_all(&mdir);
+                }
+            }
             let buf: u64 = *rng.pick(&[0u64, 10, 1000, u64::MAX]);
             MDBShardFile::clean_expired_shards(&dir, buf).unwrap();
             let deleted = !dir.join(&name).exists();
